@@ -26,7 +26,7 @@ from .c06 import LP_METHODS, NLP_METHODS, boundary_problem
 
 LEVEL = "exploration"
 BUDGET_S = {"quick": 85, "thorough": 1500}
-N_RANDOM = {"quick": 30, "thorough": 1000}
+N_RANDOM = {"quick": 16, "thorough": 1000}
 
 HD = [
     {"k": "var", "name": "s"},
@@ -70,7 +70,7 @@ def info(tier):
         "%d directed handle-retrieval recipes on solved models with pairwise distinct optimal values, for 3 solver "
         "methods; distinct = canonical (problem, method) hashes" % len(HANDLES),
         "required_cells": ["keys", "objective:optimal", "sense:min", "sense:max", "kind:constant-objective", "kind:objective-subset",
-                           "kind:lp", "kind:nlp"] + [f"handle:{h}" for h, _, _ in HANDLES] + ["handle:by-name", "handle:get-default"],
+                           "kind:lp", "kind:nlp", "history:flip-sense-same-object"] + [f"handle:{h}" for h, _, _ in HANDLES] + ["handle:by-name", "handle:get-default"],
         "assumptions": ["objective compared at rtol 1e-7 (values are float64 round-trips of the solver's point)"],
     }
 
@@ -100,6 +100,21 @@ def solve_and_check(rec, prob, method, kind, opts=None):
     rec.cmp(1, f"kind:{kind}")
     rec.cmp(1, f"sense:{prob['sense']}")
     SC.consistency(prob, P, sol, rec, bad)
+    # the same problem object again (cached data), then the same objective *object* re-set with the opposite sense
+    try:
+        with warnings.catch_warnings():
+            warnings.simplefilter("ignore")
+            sol2 = P.solve(method=method, **(opts or {}))
+            SC.consistency(prob, P, sol2, rec, lambda what, **kw: bad("second-solve:" + what, **kw))
+            flipped = dict(prob, sense="max" if prob["sense"] == "min" else "min")
+            (P.maximize if flipped["sense"] == "max" else P.minimize)(P.objective)
+            sol3 = P.solve(method=method, **(opts or {}))
+            rec.cmp(1, "history:flip-sense-same-object")
+            SC.consistency(flipped, P, sol3, rec, lambda what, **kw: bad("after-sense-flip:" + what, **kw))
+            sol4 = P.solve(method=method, **(opts or {}))
+            SC.consistency(flipped, P, sol4, rec, lambda what, **kw: bad("after-sense-flip-second-solve:" + what, **kw))
+    except Exception as ex:
+        rec.events[f"re-solve-raises:{type(ex).__name__}"] += 1
     rec.sample(show, cap=3)
 
 
@@ -221,7 +236,7 @@ def run(ctx, rec):
             prob, kind, methods = boundary_problem(rng), "nlp", NLP_METHODS
         else:
             prob, kind, methods = L.draw_lp(rng, kind=["optimal", "infeasible", "unbounded"][which - 3]), "lp", LP_METHODS
-        ms = [methods[(k + j * 3) % len(methods)] for j in range(3)] if ctx.tier == "quick" else methods
+        ms = [methods[(rng.randrange(len(methods)) + j * 3) % len(methods)] for j in range(3)] if ctx.tier == "quick" else methods
         for m in dict.fromkeys(ms):
             solve_and_check(rec, prob, m, kind, {"maxiter": 200} if m == "trust-constr" else None)
 
